@@ -611,3 +611,107 @@ def sink_entry(base, name="sink"):
                        templates_data={"k1": "%p1%", "k2": "%p2%"}, repository_templates="%__config_dir%/repo_templates", lang_cfg=lang_cfg)
     return {"id": name, "yaml": y, "inspect": True, "outdir": "out", "langs": list(langs), "pkgs": ["alpha", "beta", "gamma", "libone", "libtwo"],
             "features": {"pkgs": 2, "cands": 1}, "flags": {}, "source": "sink", "params": {"x1": "1", "x2": "2"}}
+
+
+# ------------------------------------------------------------------------------------------------ corpus growth (C03): reach more sites with >= 2 keys
+def _write(p, text):
+    os.makedirs(os.path.dirname(p), exist_ok=True)
+    open(p, "w").write(text)
+
+
+def constants_entry(base, name="constants"):
+    """Top-level constants whose names differ only in letter case (Java Constants.java, every other language's constants)."""
+    d = os.path.join(base, name)
+    _write(os.path.join(d, "cue_units", "units.cue"),
+           'package cue_units\n\nms: "ms"\nMs: "Ms"\nMS: "MS"\nkb: "kb"\nkB: "kB"\nzeta: "z"\nHolder: {\n  unit: string\n  size?: int64\n}\n')
+    _write(os.path.join(d, "cue_other", "other.cue"), 'package cue_other\n\nalpha: "a"\nAlpha: "A"\nThing: {\n  id: string\n}\n')
+    inputs = [{"cue": {"entrypoint": "%__config_dir%/cue_units", "package": "units"}},
+              {"cue": {"entrypoint": "%__config_dir%/cue_other", "package": "other"}}]
+    # no API reference: two constants whose names differ only in case map to one documentation file (a duplicate-path error)
+    y = write_pipeline(d, "pipeline", inputs, LANGS, types=True, builders=True, converters=False, api_reference=False)
+    return {"id": name, "yaml": y, "inspect": True, "outdir": "out", "langs": list(LANGS), "pkgs": ["units", "other"],
+            "features": {"pkgs": 1}, "flags": {}, "source": "constants"}
+
+
+def veneers_entry(base, name="veneers"):
+    """Builder transformations in both rule groups (common `all` and per language) that do not commute, factories in two
+    packages (java/php factory jennies, API reference virtual objects), options on disjunctions (converters)."""
+    d = os.path.join(base, name)
+    os.makedirs(d)
+    inputs = [write_input(d, {"pkg": "alpha", "objects": _shape_objects(1)}, "jsonschema"),
+              write_input(d, {"pkg": "beta", "objects": _shape_objects(1)}, "cue")]
+    string_t = {"kind": "scalar", "scalar": {"scalar_kind": "string"}}
+    for pkg in ("alpha", "beta"):
+        _write(os.path.join(d, "veneers", "all_%s.yaml" % pkg), yaml_dump({"language": "all", "package": pkg,
+               "builders": [{"add_factory": {"by_object": "Root", "factory": {"name": "quick", "arguments": [{"name": "name", "type": string_t}],
+                                                                              "options": [{"name": "name", "parameters": [{"argument": {"name": "name", "type": string_t}}]}]}}}],
+               "options": [{"rename": {"by_name": "Root.name", "as": "title"}},
+                           {"rename": {"by_name": "Root.mode", "as": "kind"}}]}))
+        for lang in ("go", "java", "php", "python", "typescript"):
+            _write(os.path.join(d, "veneers", "%s_%s.yaml" % (lang, pkg)), yaml_dump({"language": lang, "package": pkg,
+                   "options": [{"omit": {"by_name": "Root.kind"}}, {"rename": {"by_name": "Root.title", "as": "heading"}}]}))
+    y = write_pipeline(d, "pipeline", inputs, LANGS, types=True, builders=True, converters=True, api_reference=True,
+                       veneers=["%__config_dir%/veneers"])
+    return {"id": name, "yaml": y, "inspect": True, "outdir": "out", "langs": list(LANGS), "pkgs": ["alpha", "beta"],
+            "features": {"pkgs": 1, "cands": 1}, "flags": {}, "source": "veneers"}
+
+
+def passes_entry(base, name="passes"):
+    """Schema transformations and language passes that range over hints / mappings: a hinted disjunction, a hinted alias whose
+    reference is replaced, an intersection over a hinted object (Java removes intersections), a map-valued default."""
+    d = os.path.join(base, name)
+    os.makedirs(d)
+    doc = {"$schema": "http://json-schema.org/draft-07/schema#", "$ref": "#/definitions/Root", "definitions": {
+        "Root": {"type": "object", "required": ["name"], "properties": {
+            "name": {"type": "string"}, "shape": {"$ref": "#/definitions/Shape"}, "alias": {"$ref": "#/definitions/Alias"},
+            "mix": {"$ref": "#/definitions/Mix"}, "choice": {"$ref": "#/definitions/Choice"},
+            "limits": {"type": "object", "additionalProperties": {"type": "number"}, "default": {"low": 1, "high": 2.5, "mid": 2}},
+            "words": {"type": "object", "additionalProperties": {"type": "string"}, "default": {"a": "x", "b": "y"}}}},
+        "Shape": {"oneOf": [{"$ref": "#/definitions/Circle"}, {"$ref": "#/definitions/Square"}]},
+        "Circle": {"type": "object", "required": ["kind"], "properties": {"kind": {"type": "string", "const": "circle"}, "r": {"type": "integer"}}},
+        "Square": {"type": "object", "required": ["kind"], "properties": {"kind": {"type": "string", "const": "square"}, "side": {"type": "integer"}}},
+        "Alias": {"$ref": "#/definitions/Mode"},
+        "Mode": {"type": "string", "enum": ["a", "b"]},
+        "Other": {"type": "string", "enum": ["o", "p"]},
+        "Base": {"type": "object", "properties": {"id": {"type": "string"}}},
+        # a union of intersections: Java turns the union into a struct that keeps the union as a hint, then removes the intersections
+        "PartA": {"allOf": [{"$ref": "#/definitions/Base"}, {"type": "object", "required": ["kind"], "properties": {"kind": {"type": "string", "const": "a"}}}]},
+        "PartB": {"allOf": [{"$ref": "#/definitions/Base"}, {"type": "object", "required": ["kind"], "properties": {"kind": {"type": "string", "const": "b"}}}]},
+        "Choice": {"oneOf": [{"$ref": "#/definitions/PartA"}, {"$ref": "#/definitions/PartB"}]},
+        "Mix": {"allOf": [{"$ref": "#/definitions/Base"}, {"type": "object", "properties": {
+            "extra": {"type": "string"}, "inner": {"type": "object", "properties": {"deep": {"type": "string"}}}}}]}}}
+    _write(os.path.join(d, "alpha.schema.json"), json.dumps(doc, indent=1))
+    _write(os.path.join(d, "common.yaml"), yaml_dump({"passes": [
+        {"hint_object": {"object": "alpha.Shape", "hints": {"h_one": "1", "h_two": "2"}}},
+        {"hint_object": {"object": "alpha.Alias", "hints": {"h_one": "1", "h_two": "2"}}},
+        {"hint_object": {"object": "alpha.Base", "hints": {"h_one": "1", "h_two": "2"}}},
+        {"replace_reference": {"from": "alpha.Mode", "to": "alpha.Other"}}]}))
+    inputs = [{"jsonschema": {"path": "%__config_dir%/alpha.schema.json", "package": "alpha"}}]
+    # Python has no intersections (explicit panic, C04's finding); the Go jenny prints the map-valued defaults as invalid Go
+    langs = ["java", "typescript", "jsonschema", "openapi"]      # PHP has no intersections either
+    # types only: deriving builders for an object that is a bare reference crashes (nil struct), not this property's business
+    y = write_pipeline(d, "pipeline", inputs, langs, types=True, builders=False, converters=False, api_reference=False,
+                       common_passes=["%__config_dir%/common.yaml"])
+    return {"id": name, "yaml": y, "inspect": True, "outdir": "out", "langs": langs, "pkgs": ["alpha"],
+            "features": {"cands": 0}, "flags": {}, "source": "passes"}
+
+
+def culibs_entry(base, name="cuelibs"):
+    """CUE libraries whose import paths overlap (one is a prefix of the other) and that hold lists of their own types."""
+    d = os.path.join(base, name)
+    for lib in ("lib", "libtwo"):
+        _write(os.path.join(d, lib, lib + ".cue"),
+               "package %s\n\nLabel: {\n  text: string\n}\nLabels: {\n  items: [...Label]\n  first?: Label\n}\n" % lib)
+    _write(os.path.join(d, "cue_main", "main.cue"),
+           'package cue_main\n\nimport (\n  one "example.com/lib"\n  two "example.com/libtwo"\n)\n\nThing: {\n  id: string\n  a?: one.Labels\n  b?: two.Labels\n  c?: [...two.Label]\n}\n')
+    imports = ["%__config_dir%/lib:example.com/lib", "%__config_dir%/libtwo:example.com/libtwo"]
+    inputs = [{"cue": {"entrypoint": "%__config_dir%/cue_main", "package": "main", "cue_imports": imports}},
+              {"cue": {"entrypoint": "%__config_dir%/lib", "package": "lib", "cue_imports": imports}},
+              {"cue": {"entrypoint": "%__config_dir%/libtwo", "package": "libtwo", "cue_imports": imports}}]
+    langs = ["go", "typescript", "jsonschema"]
+    y = write_pipeline(d, "pipeline", inputs, langs, types=True, builders=False)
+    return {"id": name, "yaml": y, "inspect": True, "outdir": "out", "langs": langs, "pkgs": ["main", "lib", "libtwo"],
+            "features": {"pkgs": 2}, "flags": {}, "source": "cuelibs"}
+
+
+GROWTH_ENTRIES = {"constants": constants_entry, "veneers": veneers_entry, "passes": passes_entry, "cuelibs": culibs_entry}
